@@ -26,6 +26,9 @@ use std::{
     task::{Context, Poll},
 };
 
+/// Order of the `TransportService::open_substream` calls (per thread), see the module.
+pub use crate::protocol::transport_service::verif_open_log;
+
 type Task = Pin<Box<dyn Future<Output = ()> + Send>>;
 
 /// Executor which only collects the futures; the driver polls them explicitly.
@@ -59,6 +62,9 @@ pub struct VerifNotification {
     executor: Arc<CollectingExecutor>,
     tasks: Vec<Option<Task>>,
     connections: HashMap<PeerId, Receiver<ProtocolCommand>>,
+    /// Senders of the connection command channels (to clog them) and the peers whose channel is clogged.
+    connection_txs: HashMap<PeerId, Sender<ProtocolCommand>>,
+    clogged: HashSet<PeerId>,
     dial_rx: Receiver<InnerTransportManagerCommand>,
     codec: ProtocolCodec,
 }
@@ -120,6 +126,8 @@ impl VerifNotification {
                 executor,
                 tasks: Vec::new(),
                 connections: HashMap::new(),
+                connection_txs: HashMap::new(),
+                clogged: HashSet::new(),
                 dial_rx,
                 codec,
             },
@@ -134,6 +142,8 @@ impl VerifNotification {
     pub fn inject_connection_established(&mut self, peer: PeerId, connection: usize) {
         let (tx, rx) = channel(1024);
         self.connections.insert(peer, rx);
+        self.connection_txs.insert(peer, tx.clone());
+        self.clogged.remove(&peer);
         let connection = ConnectionId::from(connection);
         self.inject(InnerTransportEvent::ConnectionEstablished {
             peer,
@@ -145,6 +155,8 @@ impl VerifNotification {
 
     pub fn inject_connection_closed(&mut self, peer: PeerId, connection: usize) {
         self.connections.remove(&peer);
+        self.connection_txs.remove(&peer);
+        self.clogged.remove(&peer);
         self.inject(InnerTransportEvent::ConnectionClosed {
             peer,
             connection: ConnectionId::from(connection),
@@ -154,6 +166,17 @@ impl VerifNotification {
     /// Drop the command receiver of the connection: later `open_substream`/`force_close` fail.
     pub fn kill_connection_channel(&mut self, peer: PeerId) {
         self.connections.remove(&peer);
+        self.connection_txs.remove(&peer);
+        self.clogged.remove(&peer);
+    }
+
+    /// Fill the command channel of the connection and stop draining it: later
+    /// `open_substream`/`force_close` fail with `ChannelClogged`.
+    pub fn clog_connection_channel(&mut self, peer: PeerId) {
+        if let Some(tx) = self.connection_txs.get(&peer) {
+            while tx.try_send(ProtocolCommand::ForceClose).is_ok() {}
+            self.clogged.insert(peer);
+        }
     }
 
     /// `outbound = Some(substream id)` for an outbound substream, `None` for an inbound one.
@@ -188,6 +211,14 @@ impl VerifNotification {
         self.inject(InnerTransportEvent::SubstreamOpenFailure {
             substream: SubstreamId::from(substream),
             error: SubstreamError::ConnectionClosed,
+        });
+    }
+
+    /// `SubstreamOpenFailure` with the `kind`-th variant of `SubstreamError` (modulo their number).
+    pub fn inject_substream_open_failure_kind(&mut self, substream: usize, kind: usize, peer: PeerId) {
+        self.inject(InnerTransportEvent::SubstreamOpenFailure {
+            substream: SubstreamId::from(substream),
+            error: verif_substream_error(kind, peer),
         });
     }
 
@@ -252,6 +283,9 @@ impl VerifNotification {
         let mut peers: Vec<PeerId> = self.connections.keys().copied().collect();
         peers.sort_by_key(|p| p.to_bytes());
         for peer in peers {
+            if self.clogged.contains(&peer) {
+                continue;
+            }
             let rx = self.connections.get_mut(&peer).expect("peer exists");
             while let Ok(command) = rx.try_recv() {
                 match command {
@@ -334,6 +368,41 @@ impl VerifNotification {
 }
 
 
+/// Number of `SubstreamError` variants.
+pub const VERIF_SUBSTREAM_ERRORS: usize = 8;
+
+/// Index of the variant: an exhaustive match, so that a new variant of `SubstreamError` breaks the
+/// build of the hooks until `verif_substream_error` produces it as well.
+pub fn verif_substream_error_index(error: &SubstreamError) -> usize {
+    match error {
+        SubstreamError::ConnectionClosed => 0,
+        SubstreamError::ChannelClogged => 1,
+        SubstreamError::PeerDoesNotExist(_) => 2,
+        SubstreamError::IoError(_) => 3,
+        SubstreamError::YamuxError(_, _) => 4,
+        SubstreamError::ReadFailure(_) => 5,
+        SubstreamError::WriteFailure(_) => 6,
+        SubstreamError::NegotiationError(_) => 7,
+    }
+}
+
+/// The `kind`-th variant of `SubstreamError` (modulo `VERIF_SUBSTREAM_ERRORS`).
+pub fn verif_substream_error(kind: usize, peer: PeerId) -> SubstreamError {
+    match kind % VERIF_SUBSTREAM_ERRORS {
+        0 => SubstreamError::ConnectionClosed,
+        1 => SubstreamError::ChannelClogged,
+        2 => SubstreamError::PeerDoesNotExist(peer),
+        3 => SubstreamError::IoError(std::io::ErrorKind::BrokenPipe),
+        4 => SubstreamError::YamuxError(
+            crate::yamux::ConnectionError::NoMoreStreamIds,
+            crate::protocol::Direction::Outbound(SubstreamId::from(0usize)),
+        ),
+        5 => SubstreamError::ReadFailure(None),
+        6 => SubstreamError::WriteFailure(None),
+        _ => SubstreamError::NegotiationError(crate::error::NegotiationError::Timeout),
+    }
+}
+
 // Second group of hooks (user-facing ends and the per-stream `Connection` task without a
 // `NotificationProtocol`), kept in its own file.
 #[path = "verif_pipe.rs"]
@@ -344,3 +413,8 @@ pub use pipe::*;
 #[path = "verif_bounded.rs"]
 mod bounded;
 pub use bounded::*;
+
+// Fourth group of hooks: the `HandshakeService` on its own.
+#[path = "verif_handshake.rs"]
+mod handshake;
+pub use handshake::*;
